@@ -378,7 +378,7 @@ static ExecResult run_once(int prog, const std::vector<int> &schedule, double li
     int k = g_jobs;                  // dedicated slot
     WorkerShm &w = g_w[k];
     memset(&w.cnt, 0, sizeof w.cnt);
-    w.slot.outcome = VS_OUT_RUNNING; w.slot.rec.n = 0; w.slot.nev = 0; w.slot.msg[0] = 0;
+    w.slot.outcome = VS_OUT_RUNNING; w.slot.rec.n = 0; w.slot.nev = 0; w.slot.msg[0] = 0; w.race_seen = 0;
     fflush(stdout); fflush(stderr);
     pid_t pid = fork();
     if (pid == 0) {
@@ -403,6 +403,7 @@ static ExecResult run_once(int prog, const std::vector<int> &schedule, double li
         else if (WIFSIGNALED(st)) e.msg = "process killed by signal " + std::to_string(WTERMSIG(st));
         else e.msg = "process exited with status " + std::to_string(WEXITSTATUS(st)) + " in the middle of an execution";
     }
+    if (w.race_seen && e.outcome != VS_OUT_RACE) { e.msg = "ThreadSanitizer reported a data race during this schedule (the execution then ended with: " + e.msg + ")"; e.outcome = VS_OUT_RACE; }
     for (int i = 0; i < w.slot.rec.n; i++) e.schedule.push_back(w.slot.rec.choice[i]);
     e.nalt.assign(w.slot.rec.nalt, w.slot.rec.nalt + w.slot.rec.n);
     e.flags.assign(w.slot.rec.flags, w.slot.rec.flags + w.slot.rec.n);
@@ -546,6 +547,11 @@ static bool explore(RunState &rs, int prog, int bound, int max_violations) {
         if (outcome == VS_OUT_RUNNING || outcome == VS_OUT_OK) {
             outcome = VS_OUT_CRASH;
             msg = sig ? "process killed by signal " + std::to_string(sig) : "process exited with status " + std::to_string(WEXITSTATUS(st)) + " in the middle of an execution";
+        }
+        if (sh.race_seen && outcome != VS_OUT_RACE) {
+            // ThreadSanitizer had already reported a race in this execution when it died (an assertion of the code under test firing after the racy accesses, say): the race is the finding
+            msg = "ThreadSanitizer reported a data race during this schedule (the execution then ended with: " + msg + ")";
+            outcome = VS_OUT_RACE;
         }
         Task t = w.task;
         // continuation of the interrupted subtree
